@@ -25,8 +25,9 @@
    and `$x = await f` (the return_value member of the Finished event).
    Slice 7 adds the internal events FinishFlow / StopFlow sent by a flow (`send StopFlow(flow_id="f")`), addressed by flow id
    (all instances whose arguments include the given ones) or by instance uid.
-   NOT yet modelled (programs using them are outside the fragment): global variables, events written as members of a
-   flow / action constructor, `send $ref.Stop()`.
+   Slice 8 adds global variables (`global $x`: the flow reads and writes the variable of the whole state).
+   NOT yet modelled (programs using them are outside the fragment): events written as members of a flow / action
+   constructor, `send $ref.Stop()`.
 
    The program is the REAL compiler output (FlowConfig.elements exported as JSON by
    harness/colang2.export_sm): P below.  One TLA+ step = one run_to_completion call (macro step),
@@ -115,6 +116,9 @@ ElAtHead(S, k, hid) == LET h == Hd(S, k, hid) IN
 (* context lookup: local context, globals are not modelled in slice 1 *)
 HasVar(f, v) == v \in DOMAIN f.ctx
 Var(f, v) == f.ctx[v]
+(* with the global variables of the state: a name the flow declared `global` is looked up there *)
+HasVarG(S, f, v) == v \in f.globals \/ v \in DOMAIN f.ctx
+VarG(S, f, v) == IF v \in f.globals THEN S.gctx[v] ELSE f.ctx[v]
 SetVar(f, v, x) == [f EXCEPT !.ctx = (v :> x) @@ @]
 
 (* ------------------------------------------------------------------ expression evaluation *)
@@ -126,8 +130,8 @@ Eval(S, k, e) ==
   CASE e.k = "const" -> (IF e.t = "i" THEN <<TRUE, <<"i", e.n>>>> ELSE IF e.t = "s" THEN <<TRUE, <<"s", e.v>>>>
                          ELSE IF e.t = "b" THEN <<TRUE, <<"b", e.n = 1>>>> ELSE IF e.t = "n" THEN <<TRUE, <<"n", 0>>>>
                          ELSE <<TRUE, <<"f", e.v>>>>)
-    [] e.k = "var"    -> (IF HasVar(f, e.v) THEN <<TRUE, Var(f, e.v)>> ELSE <<FALSE, <<"n", 0>>>>)
-    [] e.k = "strvar" -> (IF HasVar(f, e.v) THEN <<TRUE, Var(f, e.v)>> ELSE <<FALSE, <<"n", 0>>>>)   \* '{$x}' of a uid is the uid
+    [] e.k = "var"    -> (IF HasVarG(S, f, e.v) THEN <<TRUE, VarG(S, f, e.v)>> ELSE <<FALSE, <<"n", 0>>>>)
+    [] e.k = "strvar" -> (IF HasVarG(S, f, e.v) THEN <<TRUE, VarG(S, f, e.v)>> ELSE <<FALSE, <<"n", 0>>>>)   \* '{$x}' of a uid is the uid
     [] e.k = "newuid" -> <<TRUE, <<"uid", S.nuid>>>>            \* caller bumps S.nuid
     [] e.k = "member" -> (IF ~HasVar(f, e.v) THEN <<FALSE, <<"n", 0>>>>
                           ELSE LET o == Var(f, e.v) IN
@@ -308,7 +312,7 @@ AddInstanceA(S, fid, hier, uidn, evargs) ==
       f  == [fid |-> fid, uid |-> uidn, status |-> "WAITING", parent |-> 0, parentHead |-> 0, children |-> <<>>, activated |-> 0,
              loop |-> (IF Cfg(fid).loop.type = "NEW" THEN <<"new", 1000 + k>> ELSE IF Cfg(fid).loop.type = "NAMED" THEN <<Cfg(fid).loop.id, 0>> ELSE <<"none", 0>>),
              prio |-> One, hier |-> hier, ctx |-> CtxFrom(fid, evargs, 1, <<>>), args |-> FlowArgs(fid, evargs), actions |-> <<>>, heads |-> <<NewHead(1, 0, <<>>, <<>>, <<>>)>>,
-             forks |-> <<>>, scopes |-> <<>>, newinst |-> FALSE, nexthid |-> 2, old |-> FALSE]
+             forks |-> <<>>, scopes |-> <<>>, newinst |-> FALSE, nexthid |-> 2, old |-> FALSE, globals |-> {}]
       S1 == [S EXCEPT !.flows = Append(@, f)]
   IN HeadChanged(S1, k, 1)
 AddInstance(S, fid, hier, uidn) == AddInstanceA(S, fid, hier, uidn, <<>>)
@@ -510,6 +514,8 @@ Slide(S, k, hid, fuel) ==
               LET r  == Eval(S, k, e.expr)
                   S1 == IF UsesNewUid(e.expr) THEN [S EXCEPT !.nuid = @ + 1] ELSE S
               IN IF ~r[1] THEN [S |-> S, new |-> <<>>, err |-> TRUE]
+                 ELSE IF e.key \in f.globals
+                   THEN Slide(SetPos([S1 EXCEPT !.gctx = (e.key :> r[2]) @@ @], k, hid, h.pos + 1), k, hid, fuel - 1)
                  ELSE Slide(SetPos(SetFl(S1, k, SetVar(Fl(S1, k), e.key, r[2])), k, hid, h.pos + 1), k, hid, fuel - 1)
          [] e.k = "return" ->
               LET r == Eval(S, k, e.expr) IN
@@ -542,6 +548,9 @@ Slide(S, k, hid, fuel) ==
                         \* remove the scope from all heads of the flow
                         S3 == [S2 EXCEPT !.flows[k].heads = [q \in 1..Len(@) |-> [@[q] EXCEPT !.scopes = SelectSeq(@, LAMBDA s : s # e.label)]]]
                     IN Slide(SetPos(S3, k, hid, Hd(S3, k, hid).pos + 1), k, hid, fuel - 1))
+         [] e.k = "global" ->
+              LET S1 == [S EXCEPT !.flows[k].globals = @ \cup {e.key}, !.gctx = IF e.key \in DOMAIN @ THEN @ ELSE (e.key :> <<"n", 0>>) @@ @]
+              IN Slide(SetPos(S1, k, hid, h.pos + 1), k, hid, fuel - 1)
          [] e.k = "priority" ->          \* the fragment has the float constants 1.0 and 0.5; anything else is not a float in [0, 1]: ColangValueError
               (IF e.expr.k = "const" /\ e.expr.t = "f" /\ e.expr.v \in {"1.0", "0.5"}
                  THEN Slide(SetPos([S EXCEPT !.flows[k].prio = IF e.expr.v = "0.5" THEN <<0, 1, 2>> ELSE One], k, hid, h.pos + 1), k, hid, fuel - 1)
@@ -827,7 +836,7 @@ Run(S, ev, pick) == Outer(DropUnreferencedActions(CleanUp(ClearScores([S EXCEPT 
 
 (* initialize_state: the main instance, waiting at position 0 *)
 Init0 ==
-  LET S0 == [flows |-> <<>>, actions |-> <<>>, queue |-> <<>>, out |-> <<>>, index |-> <<>>, nuid |-> 100, pick |-> 0, nev |-> 0, fuelout |-> FALSE, res |-> <<>>, round |-> 0]
+  LET S0 == [flows |-> <<>>, actions |-> <<>>, queue |-> <<>>, out |-> <<>>, index |-> <<>>, nuid |-> 100, pick |-> 0, nev |-> 0, fuelout |-> FALSE, res |-> <<>>, round |-> 0, gctx |-> <<>>]
       S1 == AddInstance(S0, "main", <<0>>, 1)
   IN [S1 EXCEPT !.flows[1].activated = 1, !.flows[1].loop = <<"main", 0>>]
 ExtEvent(name, args) == Ev(name, args, <<>>, "E", 0)
